@@ -105,11 +105,15 @@ def body_classes(cube, **kw):
                 if float(getattr(obj, n)) != want[n]:
                     return 'default of %s.%s is %r, expected %r' % (t, n, float(getattr(obj, n)), want[n])
         names = [x['name'] for x in spec['associations']]
-        for x in spec['associations']:
+        for x in spec['associations'] + list(reversed(spec['associations'])):     # both lookup orders (memoisation)
             full = lcf.get_association_by_signature(x['name'], x['leftAsset'], x['rightAsset'])
             flip = lcf.get_association_by_signature(x['name'], x['rightAsset'], x['leftAsset'])
             wantname = x['name'] if names.count(x['name']) == 1 else '%s_%s_%s' % (x['name'], x['leftAsset'], x['rightAsset'])
-            if full != wantname or flip != wantname:
+            # the flipped query resolves to this association unless another association of that name is declared the other way round
+            other = next((y for y in spec['associations'] if y['name'] == x['name'] and y['leftAsset'] == x['rightAsset']
+                          and y['rightAsset'] == x['leftAsset'] and y is not x), None)
+            wantflip = wantname if other is None else '%s_%s_%s' % (other['name'], other['leftAsset'], other['rightAsset'])
+            if full != wantname or flip != wantflip:
                 return 'association %s(%s,%s) resolves to class %r / %r, expected %r' % (
                     x['name'], x['leftAsset'], x['rightAsset'], full, flip, wantname)
             if full not in exposed:
@@ -135,7 +139,7 @@ def body_assoc(cube, **kw):
     from maltoolbox.model import Model
     kind = pick(kw['k'], KINDS)
     l0, l1 = idx(kw['l0'], 4), idx(kw['l1'], 3)
-    r0, r1, r2 = idx(kw['r0'], 2), idx(kw['r1'], 3), idx(kw['r2'], 2)
+    r0, r1, r2 = idx(kw['r0'], 3), idx(kw['r1'], 3), idx(kw['r2'], 2)
     dup = bool(kw['dup'])
     cross = bool(kw['cross']) if 'cross' in kw else False
     with notrace(), reclimit():
@@ -150,12 +154,14 @@ def body_assoc(cube, **kw):
             left.append(l0)
         elif l1 == 2:
             left.append(2)
-        right = [[3, 0][r0]]
-        if r1 == 1:
+        right = [[3, 0, 3][r0]]
+        if r0 == 2:
+            right = []                      # empty opposite field
+        elif r1 == 1:
             right.append(right[0])
         elif r1 == 2:
             right.append(4)
-        if r2 == 1:
+        if r2 == 1 and r0 != 2:
             right.append(5)
 
         def conforms(members, tname):
@@ -200,9 +206,9 @@ def body_assoc(cube, **kw):
             attempt()
         except Exception as e:
             ok = False
-        want_ok = valid and not (dup and first_ok) and not cross_link
+        want_ok = valid and not (dup and first_ok and left and right) and not cross_link      # no pair, no duplicate link
         desc = '%s left=%s right=%s%s' % (kind, [str(pool[i].name) for i in left], [str(pool[i].name) for i in right],
-                                          ' (already present)' if dup and first_ok else (' (one cross pair already linked)' if cross_link else ''))
+                                          ' (already present)' if dup and first_ok and left and right else (' (one cross pair already linked)' if cross_link else ''))
         if ok and not want_ok:
             return 'association %s was accepted although the language/model forbids it' % desc
         if not ok and want_ok:
@@ -232,13 +238,13 @@ def queries(tier):
                     witnesses=[({}, {'tp': 0, 'ta': 1, 'c0': 2, 'c2': 3, 'go': 1}), ({}, {'tp': 2, 'ta': 3, 'c0': 1, 'c2': 0, 'go': 0})],
                     bound='L_INH variants: TTC of defense dP (on abstract P) and dA over [Enabled, Disabled, none, Exponential], step s declared at P/G1 in '
                           '3 x 4 ways, G1 extending or overriding (->) the inherited defense dP with another status; every asset type, its inherited defenses and defaults, every association class incl. both Dup sub-entries'))
-    ps = [I('k', 0, 4), I('l0', 0, 3), I('l1', 0, 2), I('r0', 0, 1), I('r1', 0, 2), I('r2', 0, 1), B('dup'), B('cross')]
+    ps = [I('k', 0, 4), I('l0', 0, 3), I('l1', 0, 2), I('r0', 0, 2), I('r1', 0, 2), I('r2', 0, 1), B('dup'), B('cross')]
     qs.append(Query(name='assoc', body=body_assoc, params=ps, split=['k', 'dup'], timeout=500, pre=['not (dup and cross)', 'not cross or l1 == 2'],
                     witnesses=[({}, {'k': 0, 'l0': 0, 'l1': 2, 'r0': 0, 'r1': 2, 'r2': 1, 'dup': True}),
                                ({}, {'k': 1, 'l0': 0, 'l1': 2, 'r0': 0, 'r1': 0, 'r2': 0, 'dup': False}),
                                ({}, {'k': 3, 'l0': 1, 'l1': 0, 'r0': 0, 'r1': 0, 'r2': 0, 'dup': False})],
                     bound='associations %s of L_INH (multiplicities *, 0..1/1, 1..*/0..2, duplicate names); left field: first member from [G1,G2,A,O], '
-                          'second none/same/A; right field: first member O or G1, second none/same/O, third none/O; with and without the same link '
+                          'second none/same/A; right field: first member O or G1 or the field left empty, second none/same/O, third none/O; with and without the same link '
                           'already present, or one cross pair (last left member, first right member) already linked' % KINDS))
     return qs
 
